@@ -134,21 +134,12 @@ func VerifC17Step() {
 	rt.Assert("get/keeps-the-rest-in-order", same)
 }
 
-// C17 concurrent: bufSize shrunk to 2. Two producers each Put two messages (transaction number =
-// producer number, so the order within a transaction is the producer's program order; arbitrary
-// priorities), one consumer does four Gets. The interleaving is chosen at every
-// Lock/Unlock/Wait/Signal of the queue (sync.Cond modelled exactly: FIFO wake-up, no spurious
-// wake-ups) with a bounded number of pre-emptive switches. Every run terminates (no deadlock: a
-// producer blocked on a full queue is woken by a Get, the consumer blocked on an empty queue by a
-// Put; a lost wake-up would leave a thread parked and is reported as deadlock), every
-// message is delivered exactly once, and each transaction's messages arrive in the order sent.
-//
-//symgo:harness prop=C17 tier=quick shards=8 timeout=400 ttimeout=1700 preempt=2 tpreempt=3 replay=off shrink=util/queue/priority_queue.go:bufSize=2 bounds=2_producers_x_2_Puts_(thorough:_one_producer_3),_1_consumer_x_4_(5)_Gets;bufSize_shrunk_to_2;arbitrary_priorities;tran=producer;interleaved_at_every_Lock/Unlock/Wait/Signal;<=2_(thorough_3)_pre-emptions outside=more_pre-emptions;several_consumers;spurious_wake-ups_(Go's_sync.Cond_has_none)
-func VerifC17Concurrent() {
-	counts := []int{2, 2}
-	if rt.Thorough() {
-		counts = []int{3, 2}
-	}
+// vconc: producer p Puts counts[p] messages (transaction number = producer number, so the order
+// within a transaction is the producer's program order; arbitrary priorities), one consumer
+// Gets them all. Every message is delivered exactly once and each transaction's messages arrive
+// in the order sent; the run terminates (a lost wake-up leaves a thread parked for ever: the
+// engine reports deadlock).
+func vconc(counts []int) {
 	total := 0
 	base := make([]int, len(counts))
 	for p, c := range counts {
@@ -201,4 +192,29 @@ func VerifC17Concurrent() {
 			rt.Assert("conc/per-transaction-order", pos[base[p]+k-1] < pos[base[p]+k])
 		}
 	}
+}
+
+// C17 concurrent: bufSize shrunk to 2. Two producers each Put two messages (thorough: three and
+// two), one consumer Gets them all. The interleaving is chosen at every Lock/Unlock/Wait/Signal
+// of the queue (sync.Cond modelled exactly: FIFO wake-up, no spurious wake-ups) with at most 2
+// pre-emptive switches (switches at blocking operations are free). Every run terminates (no
+// deadlock: a producer blocked on a full queue is woken by a Get, the consumer blocked on an
+// empty queue by a Put), every message is delivered exactly once, and each transaction's
+// messages arrive in the order sent.
+//
+//symgo:harness prop=C17 tier=quick shards=8 tshards=16 timeout=400 ttimeout=1700 preempt=2 replay=off shrink=util/queue/priority_queue.go:bufSize=2 bounds=2_producers_x_2_Puts_(thorough:_3_and_2),_1_consumer_x_4_(5)_Gets;bufSize_shrunk_to_2;arbitrary_priorities;tran=producer;interleaved_at_every_Lock/Unlock/Wait/Signal;<=2_pre-emptions outside=more_pre-emptions_(3:_VerifC17ConcurrentPreempt3);several_consumers;two_producers_sharing_a_transaction;spurious_wake-ups_(Go's_sync.Cond_has_none)
+func VerifC17Concurrent() {
+	if rt.Thorough() {
+		vconc([]int{3, 2})
+	} else {
+		vconc([]int{2, 2})
+	}
+}
+
+// C17 concurrent, thorough only: as VerifC17Concurrent (2 producers x 2 Puts) with up to 3
+// pre-emptive switches.
+//
+//symgo:harness prop=C17 tier=thorough shards=8 tshards=16 timeout=1700 ttimeout=1700 preempt=3 replay=off shrink=util/queue/priority_queue.go:bufSize=2 bounds=2_producers_x_2_Puts,_1_consumer_x_4_Gets;bufSize_shrunk_to_2;arbitrary_priorities;tran=producer;interleaved_at_every_Lock/Unlock/Wait/Signal;<=3_pre-emptions outside=more_pre-emptions;several_consumers;spurious_wake-ups_(Go's_sync.Cond_has_none)
+func VerifC17ConcurrentPreempt3() {
+	vconc([]int{2, 2})
 }
